@@ -14,9 +14,10 @@ INV_PROP = {"Inv_C03": "C03", "Inv_C08": "C08", "Inv_C17": "C17"}
 
 def tree_hash():
     h = hashlib.sha1()
-    out = subprocess.run("git -C /repo rev-parse HEAD; git -C /repo diff HEAD; git -C /repo status --short; "
-                         "cat /verif/spec/[A-Z]*.tla /verif/spec/[A-Z]*.cfg /verif/harness/src/*.rs /verif/harness/Cargo.toml "
-                         "/verif/lib/*.py /verif/known_findings.json | sha1sum",
+    import common
+    out = subprocess.run(f"git -C {common.REPO} rev-parse HEAD; git -C {common.REPO} diff HEAD; git -C {common.REPO} status --short; "
+                         f"cat {common.SPEC}/[A-Z]*.tla {common.SPEC}/[A-Z]*.cfg {common.HARNESS}/src/*.rs {common.HARNESS}/Cargo.toml "
+                         f"{common.VERIF}/lib/*.py {common.VERIF}/known_findings.json | sha1sum",
                          shell=True, capture_output=True, text=True).stdout
     h.update(out.encode())
     return h.hexdigest()[:16]
